@@ -48,7 +48,7 @@ func init() {
 			"(D1) every panic statement and every call of a process-terminating library function (os.Exit, log.Fatal*/Panic*, zap Fatal/Panic) in reachable code is one obligation; it is a violation when a branch condition that decides whether it executes derives by value flow from a handler's request parameter (operands to results, call arguments to results and to the parameters of module callees, stored values and out-parameters to local cells; contexts excluded), or when it is unconditional up to a handler. The panics go/ssa synthesises for select dispatch are not source panics and are skipped. " +
 			"(D2) the pointer fields of a handler receiver type that a reachable function sets to nil are nullable (today: the account group context, cleared on deactivation). Every dereference of a value read from such a field, or returned by a function that may return it (accessor summaries), must be dominated by the non-nil side of a nil test of that same value; a test of another read of the field, or an assignment of a non-nil value to it, counts only while a lock of the owning struct is held from there to the use. " +
 			"(D3) pointer-to-message fields of a handler's request parameter are nullable (proto3 leaves them nil when absent): a field access, or passing the value to a module function whose summary says it dereferences that parameter on a path without a nil test (generated getters come out nil-safe from their bodies), must be dominated by a nil test of the value or of another read of the same request field. " +
-			"(D4) a module function with a return that carries nil (or a nullable value) together with a nil error is a nullable source for all its callers; a function that returns nil with a non-nil error is a nullable source at the points not dominated by the nil side of a test of that call's error (helpers that hand back the error they were given are seen through). One obligation per (caller, callee) pair in reachable code. The same engine is also run on the module's remaining non-test functions (the exported API no handler reaches, e.g. WeshOrbitDB.OpenGroupReplication); what it finds there is outside the property and is only written to the notes, prefixed \"outside the property's scope:\". " +
+			"(D4) a module function with a return that carries nil (or a nullable value) together with a nil error is a nullable source for all its callers; a function that returns nil with a non-nil error is a nullable source at the points not dominated by the nil side of a test of that call's error (helpers that hand back the error they were given are seen through). Correlated results are honoured (the comma-ok idiom of module functions): when every nil-without-error return of the callee carries the same constant in one of its bool results and every other success return carries the opposite constant, a use dominated by the side of a test of that result, of that very call, on which it has the opposite value is guarded; wrappers that pass the value on only on that side therefore do not become nullable sources themselves.One obligation per (caller, callee) pair in reachable code. The same engine is also run on the module's remaining non-test functions (the exported API no handler reaches, e.g. WeshOrbitDB.OpenGroupReplication); what it finds there is outside the property and is only written to the notes, prefixed \"outside the property's scope:\". " +
 			"(D5) in the exported functions of pkg/cryptoutil, every slice expression with a bound, index expression or slice-to-array conversion on a byte slice must be control-dependent on a comparison involving len of that same slice. " +
 			"(D6) every module call of a library function that panics when a byte-slice argument has the wrong length (table read off the module's actual callees: ed25519.NewKeyFromSeed 32, ed25519.Sign/PrivateKey.Sign 64, ed25519.Verify 32, PrivateKey.Seed/Public >= 32, cipher.NewCTR/CBC/CFB/OFB IV == block size, AEAD Seal/Open nonce == nonce size, binary.ByteOrder (Put)UintN >= N/8, a []byte key boxed into aead/ecdh ComputeSecret 32) and every slice-to-array conversion is one obligation. The required length must hold on every path: slice of a fixed-size array or with constant bounds, make with a constant (or, for run-time sizes, [:n] / make(n)), result of a module function whose returns all have it, parameter for which every static module caller has it, X25519 shared secret, io.ReadAll(io.LimitReader(hkdf, K)) on the nil-error side (an HKDF stream delivers 255 hash lengths before failing, so a nil error means exactly K bytes), or a comparison of len of the same value (or of another read of the same access path) with a constant whose outcome on the dominating edge gives the bound: a comparison with the wrong constant does not count. If it does not hold, the site is a violation when the bytes derive from a handler's request (D1's value flow), are read from a field of a protobuf message, or reach the call as the argument of an exported pkg/cryptoutil function (module callers, when there are any, count for establishing the length, not for trusting the bytes); otherwise it is listed as an internal buffer. For run-time sizes (block size, nonce size) an equality test against any run-time value or any constant length is accepted as written. " +
 			"(D7) for every close(ch) in reachable code whose channel can be traced to make(chan) instructions (through local variables, variables captured by closures, phis and the arguments of static calls): every send on the same channel objects must run on the same goroutine as the close, and no second close may follow it. A function runs on goroutine go:<f> when it is the target of a go statement, otherwise on the goroutines of its callers (a closure that is called, deferred or handed to a callee runs on its creator's goroutine). A close in the creating function on a path that shares no CFG path with the go statement that starts the sender (early error return before the goroutine is started) is accepted; a deferred close counts from its defer statement. Closes of channels held in struct fields, maps or returned by calls are listed in the notes as not decided; synchronisation that orders a foreign close after the last send (WaitGroup) is not recognised and would be reported. " +
@@ -247,6 +247,11 @@ type c19Ret struct {
 	OnError   bool   // some error return carries the nil constant
 	Class     string // class of the OnSuccess source
 	Why       string
+	// correlated flag (the comma-ok idiom of module functions): every nil-without-error return
+	// carries the constant FlagNil in bool result FlagIdx, every other success return carries
+	// the opposite constant. FlagIdx < 0: no such result.
+	FlagIdx int
+	FlagNil bool
 }
 
 type c19Deref struct {
@@ -691,7 +696,7 @@ func (n *c19Nil) resultOrigin(call *ssa.Call, idx int, v ssa.Value, at c19At) *c
 			continue
 		}
 		r := n.retNil(f, idx)
-		if r.OnSuccess && succ == nil {
+		if r.OnSuccess && succ == nil && !c19FlagGuards(call, r, at) {
 			succ, sf = r, f
 		}
 		if r.OnError && onerr == nil {
@@ -720,6 +725,28 @@ func (n *c19Nil) resultOrigin(call *ssa.Call, idx int, v ssa.Value, at c19At) *c
 		o.Desc = "result of " + fnName(ef) + ", which is nil when it fails, and whose error is discarded"
 	}
 	return o
+}
+
+// c19FlagGuards: the callee returns nil without an error only together with the constant
+// r.FlagNil in its bool result r.FlagIdx; at is dominated by the side of a test of that result
+// of this very call on which it has the other value (v, found, err := f(); if found { use(v) }).
+func c19FlagGuards(call *ssa.Call, r *c19Ret, at c19At) bool {
+	if r.FlagIdx < 0 {
+		return false
+	}
+	for _, fl := range extractsOf(call, r.FlagIdx) {
+		ve := edgesOfVerdict(fl)
+		edges := ve.Accept // nil comes with false: the use must be on the true side
+		if r.FlagNil {
+			edges = ve.Reject // nil comes with true: the use must be on the false side
+		}
+		for _, e := range edges {
+			if at.domBy(e) {
+				return true
+			}
+		}
+	}
+	return false
 }
 
 // errPassthrough: every return of fn hands back, as its error, the error parameter k (possibly
@@ -819,11 +846,41 @@ func (n *c19Nil) retNil(fn *ssa.Function, idx int) *c19Ret {
 		return r
 	}
 	if n.busy["r"+key] {
-		return &c19Ret{}
+		return &c19Ret{FlagIdx: -1}
 	}
 	n.busy["r"+key] = true
 	defer delete(n.busy, "r"+key)
-	res := &c19Ret{}
+	res := &c19Ret{FlagIdx: -1}
+	// flags[k]: constants seen in bool result k on the nil / non-nil success returns
+	type flagObs struct {
+		nilT, nilF, okT, okF, other bool
+	}
+	flags := map[int]*flagObs{}
+	observe := func(rr []ssa.Value, isNil bool) {
+		for k := 0; k < fn.Signature.Results().Len() && k < len(rr); k++ {
+			if k == idx || !isBoolType(fn.Signature.Results().At(k).Type()) {
+				continue
+			}
+			fo := flags[k]
+			if fo == nil {
+				fo = &flagObs{}
+				flags[k] = fo
+			}
+			b, isConst := constBool(rr[k])
+			switch {
+			case !isConst:
+				fo.other = true
+			case isNil && b:
+				fo.nilT = true
+			case isNil:
+				fo.nilF = true
+			case b:
+				fo.okT = true
+			default:
+				fo.okF = true
+			}
+		}
+	}
 	rt := fn.Signature.Results().At(idx).Type()
 	if !c19IsPtr(rt) && !c19IsIface(rt) {
 		n.retMem[key] = res
@@ -843,6 +900,7 @@ func (n *c19Nil) retNil(fn *ssa.Function, idx int) *c19Ret {
 			continue
 		}
 		if isNilConst(val) {
+			observe(rr, true)
 			if !res.OnSuccess {
 				res.OnSuccess, res.Class = true, "result"
 				res.Why = "returns nil without an error (" + n.c.pos(posOf(r)) + ")"
@@ -851,6 +909,7 @@ func (n *c19Nil) retNil(fn *ssa.Function, idx int) *c19Ret {
 		}
 		o := n.originForReturn(val, r)
 		if o == nil {
+			observe(rr, false)
 			continue
 		}
 		if o.OnErr != nil && eidx >= 0 && eidx < len(rr) && rr[eidx] == o.OnErr {
@@ -858,9 +917,27 @@ func (n *c19Nil) retNil(fn *ssa.Function, idx int) *c19Ret {
 			res.OnError = true
 			continue
 		}
+		observe(rr, true)
 		if !res.OnSuccess {
 			res.OnSuccess, res.Class = true, o.Class
 			res.Why = "can return the " + o.Desc + " without an error (" + n.c.pos(posOf(r)) + ")"
+		}
+	}
+	if res.OnSuccess {
+		for k := 0; k < fn.Signature.Results().Len(); k++ {
+			fo := flags[k]
+			if fo == nil || fo.other {
+				continue
+			}
+			switch {
+			case fo.nilT && !fo.nilF && !fo.okT: // nil <=> flag true (alreadyRegistered)
+				res.FlagIdx, res.FlagNil = k, true
+			case fo.nilF && !fo.nilT && !fo.okF: // nil <=> flag false (found)
+				res.FlagIdx, res.FlagNil = k, false
+			}
+			if res.FlagIdx >= 0 {
+				break
+			}
 		}
 	}
 	n.retMem[key] = res
